@@ -50,6 +50,22 @@ func genC04(c *runCfg) error {
 		g.w("\tvrt.Assume(!quirk) // octets 0x08..0x0F are not identifiers of any message (outside the property's quantifier)\n")
 		g.w("\tvrt.Assert((err == nil) == ok, \"%s: decoder accepts exactly what the table-driven decoder accepts\")\n", m.Message)
 		g.w("\tif ok && err == nil {\n\t\tvrt.Equal(zzElems%s(a), ref.Pad(zzTbl%s, es), \"%s: decoded fields equal the table-driven decoder's\")\n\t}\n}\n\n", m.Message, m.Message, m.Message)
+		// the generic entry point accepts exactly the same strings (header + mandatory part; the optional part is the
+		// same code as in _dec): nothing in front of the message-specific decoder may reject or rewrite them
+		if m.MsgType != nil {
+			hl := hdrLen(m)
+			epd := "0x7e"
+			if m.Family == "gsm" {
+				epd = "0x2e"
+			}
+			g.w("func VH_C04_%s_plain() {\n", m.Message)
+			g.w("\tvrt.CutAt(%q, \"for.body\", 1)\n", decFn(m))
+			g.w("\tin := vrt.BytesSym(\"in\", 70000)\n\tvrt.Assume(len(in) >= %d)\n\tvrt.Assume(in[0] == %s && in[%d] == %d)\n", hl, epd, hl-1, *m.MsgType)
+			g.w("\tmsg := NewMessage()\n\tvar err error\n")
+			g.w("\tif vrt.Cut(func() { err = msg.PlainNasDecode(&in) }) {\n\t\treturn // header and mandatory part accepted, optional part entered\n\t}\n")
+			g.w("\t_, quirk, ok := ref.DecodeQ(zzTbl%s, in)\n\tvrt.Assume(!quirk)\n", m.Message)
+			g.w("\tvrt.Assert((err == nil) == ok, \"%s: PlainNasDecode accepts exactly what the table-driven decoder accepts (header and mandatory part)\")\n}\n\n", m.Message)
+		}
 		// duplicates: every optional element twice with independently chosen lengths (last one wins, nothing of the first survives)
 		if len(optRows(m)) > 0 {
 			g.w("func VH_C04_%s_dup() {\n", m.Message)
@@ -274,6 +290,27 @@ func genC10(c *runCfg) error {
 		g.w("\tvrt.Equal(out[:pl], pre, \"%s: pre-existing buffer content is kept\")\n", m.Message)
 		g.w("\tfresh := new(bytes.Buffer)\n\t_ = a.Encode%s(fresh)\n\tvrt.Equal(out[pl:], fresh.Bytes(), \"%s: appended bytes do not depend on the buffer's prior content; encoding is deterministic\")\n", m.Message, m.Message)
 		g.w("\t_ = %q\n}\n\n", fam)
+		// the same through the generic entry points: a Message built through the API (header octets arbitrary except
+		// the message type, as callers set only that) is not modified by PlainNasEncode / the family encoder
+		if m.MsgType != nil {
+			hdr, enc := "GmmHeader", "GmmMessageEncode"
+			hn := 3
+			if m.Family == "gsm" {
+				hdr, enc, hn = "GsmHeader", "GsmMessageEncode", 4
+			}
+			g.w("func VH_C10_%s_encp() {\n", m.Message)
+			g.w("\tes := zzSym%s(vrt.Choose(\"shape\", 0, 1), 0)\n\ta := zzBuild%s(es)\n", m.Message, m.Message)
+			g.w("\tmsg := NewMessage()\n\tmsg.%s = New%s()\n\tmsg.%s.%s = a\n", fam, fam, fam, m.Message)
+			for k := 0; k < hn-1; k++ {
+				g.w("\tmsg.%s.%s.Octet[%d] = vrt.U8(\"h%d\")\n", fam, hdr, k, k)
+			}
+			g.w("\tmsg.%s.%s.SetMessageType(%d)\n", fam, hdr, *m.MsgType)
+			g.w("\tsnap := vrt.Snapshot(msg)\n\tvar out []byte\n\tvar err error\n")
+			g.w("\tif vrt.Bool(\"viaPlain\") {\n\t\tout, err = msg.PlainNasEncode()\n\t} else {\n\t\tb := new(bytes.Buffer)\n\t\terr = msg.%s(b)\n\t\tout = b.Bytes()\n\t}\n", enc)
+			g.w("\tvrt.Assert(err == nil, \"%s: encoding through the generic entry point succeeds\")\n", m.Message)
+			g.w("\tvrt.Assert(vrt.Unchanged(snap), \"%s: PlainNasEncode / family encoder do not modify the message (header view included)\")\n", m.Message)
+			g.w("\tout2, err2 := msg.PlainNasEncode()\n\tvrt.Assert(err2 == nil, \"%s: encoding again succeeds\")\n\tvrt.Equal(out2, out, \"%s: encoding again yields the same bytes\")\n}\n\n", m.Message, m.Message)
+		}
 	}
 	return g.finish(c, "C10")
 }
